@@ -3,7 +3,7 @@ The property of each commit is looked up by a keyword of its subject."""
 import json, subprocess
 MAP = [
     ('LogLogit.get_value returns -inf', 'C01'), ('PowerConstant.get_value', 'C01'), ('simulate used the identifiers', 'C01'),
-    ('temporary identifiers', 'C01'),
+    ('temporary identifiers', 'C01'), ('created by create_function', 'C01'),
     ('unique_entry', 'C02'),
     ('number_of_threads after construction', 'C04'), ('kept the last bootstrap sample', 'C04'),
     ('nested-logit generating function', 'C06'),
